@@ -180,6 +180,18 @@ def rhScores (g : Graph α) (a : α) (seeds : List α) (nIter : Nat) : List α :
 def rh (g : Graph α) (a : α) (seeds : List α) (nIter : Nat) : List α :=
   normalizeV g.n (rhScores g a seeds nIter)
 
+/-! ### the external solvers (`solver='bicgstab'`, `solver='lanczos'`): what scipy returned is a parameter -/
+
+/-- residual of the system handed to `bicgstab` : `((I - rso.a) x - rso.b)[i]` -/
+def bicgstabResidual (g : Graph α) (a : α) (seeds : List α) (x : List α) (i : Nat) : α :=
+  (x.getD i 0 - surferA g a x i) - (surferB g a seeds).getD i 0
+
+/-- `solver='bicgstab'` : `scores, info = bicgstab(I - rso.a, rso.b, atol=tol, x0=rso.b)`, then `scores / scores.sum()` -/
+def bicgstabBranch (n : Nat) (ext : List α) : List α := normalizeV n ext
+
+/-- `solver='lanczos'` : `_, scores = eigs(rso, k=1, tol=tol, v0=rso.b)`, `abs(scores.flatten().real)`, then `/ sum` -/
+def lanczosBranch (n : Nat) (ext : List α) : List α := normalizeV n (tab n fun i => absS (ext.getD i 0))
+
 /-! ### D-iteration kernel (`linalg/diteration.pyx : diffusion`) -/
 
 structure DState (α : Type) where
@@ -339,16 +351,18 @@ structure BState where
   queue : List Nat
   seen : List Nat            -- the stack, top first
 
+/-- body of the `for j in neighbors` loop for the popped node `i` -/
+def brandesStep (i : Nat) (st : BState) (j : Nat) : BState :=
+  let di := st.dists.getD i (-1)
+  let st := if st.dists.getD j (-1) < 0 then
+      { st with dists := st.dists.set j (di + 1), queue := st.queue ++ [j] } else st
+  if st.dists.getD j (-1) == di + 1 then
+    { st with sigma := st.sigma.modify j (· + st.sigma.getD i 0),
+              preds := st.preds.modify j (· ++ [i]) }
+  else st
+
 /-- the `for j in neighbors` loop for the popped node `i` -/
-def brandesScan (i : Nat) (nbrs : List Nat) (st : BState) : BState :=
-  nbrs.foldl (fun st j =>
-    let di := st.dists.getD i (-1)
-    let st := if st.dists.getD j (-1) < 0 then
-        { st with dists := st.dists.set j (di + 1), queue := st.queue ++ [j] } else st
-    if st.dists.getD j (-1) == di + 1 then
-      { st with sigma := st.sigma.modify j (· + st.sigma.getD i 0),
-                preds := st.preds.modify j (· ++ [i]) }
-    else st) st
+def brandesScan (i : Nat) (nbrs : List Nat) (st : BState) : BState := nbrs.foldl (brandesStep i) st
 
 /-- the `while bfs_queue.size() != 0` loop; `none` = fuel exhausted -/
 def brandesBfs (nbr : Nat → List Nat) : Nat → BState → Option BState
